@@ -742,65 +742,69 @@ impl Router {
                 Packet::Unsubscribe(unsubscribe, _) => {
                     let connection = self.connections.get_mut(id).unwrap();
                     let pkid = unsubscribe.pkid;
+                    // one reason code per requested filter, for the single UNSUBACK
+                    let mut reasons = Vec::with_capacity(unsubscribe.filters.len());
                     for filter in &unsubscribe.filters {
                         let span = tracing::info_span!("unsubscribe", topic = filter, pkid);
                         let _guard = span.enter();
 
                         debug!("Removing subscription on filter {}", filter);
-                        if let Some(connection_ids) = self.subscription_map.get_mut(filter) {
-                            let removed = connection_ids.remove(&id);
-                            if !removed {
-                                continue;
-                            }
+                        let removed = self
+                            .subscription_map
+                            .get_mut(filter)
+                            .is_some_and(|connection_ids| connection_ids.remove(&id));
+                        if !removed {
+                            reasons.push(UnsubAckReason::NoSubscriptionExisted);
+                            continue;
+                        }
 
-                            let meter = &mut self.ibufs.get_mut(id).unwrap().meter;
-                            meter.unregister_subscription(filter);
+                        let meter = &mut self.ibufs.get_mut(id).unwrap().meter;
+                        meter.unregister_subscription(filter);
 
-                            if !connection.subscriptions.remove(filter) {
-                                warn!(
-                                    pkid = unsubscribe.pkid,
-                                    "Unsubscribe failed as filter was not subscribed previously"
-                                );
-                                continue;
-                            }
+                        if !connection.subscriptions.remove(filter) {
+                            warn!(
+                                pkid = unsubscribe.pkid,
+                                "Unsubscribe failed as filter was not subscribed previously"
+                            );
+                            reasons.push(UnsubAckReason::NoSubscriptionExisted);
+                            continue;
+                        }
 
-                            // Leave the group this filter subscribed through (if any) and
-                            // discard the group when it becomes empty. Other groups, joined
-                            // through other subscriptions of this client, are not touched.
-                            if let Some((group_name, _)) = extract_group(filter) {
-                                if let Some(group) = self.shared_subscriptions.get_mut(&group_name)
-                                {
-                                    group.remove_client(&client_id);
-                                    if group.is_empty() {
-                                        self.shared_subscriptions.remove(&group_name);
-                                    }
+                        // Leave the group this filter subscribed through (if any) and
+                        // discard the group when it becomes empty. Other groups, joined
+                        // through other subscriptions of this client, are not touched.
+                        if let Some((group_name, _)) = extract_group(filter) {
+                            if let Some(group) = self.shared_subscriptions.get_mut(&group_name) {
+                                group.remove_client(&client_id);
+                                if group.is_empty() {
+                                    self.shared_subscriptions.remove(&group_name);
                                 }
                             }
-
-                            if let Some(broker_aliases) = connection.broker_topic_aliases.as_mut() {
-                                broker_aliases.remove_alias(filter);
-                            }
-
-                            // remove the subscription id
-                            connection.subscription_ids.remove(filter);
-
-                            let unsuback = UnsubAck {
-                                pkid,
-                                // reasons are used in MQTTv5
-                                reasons: vec![UnsubAckReason::Success],
-                            };
-                            let ackslog = self.ackslog.get_mut(id).unwrap();
-                            ackslog.unsuback(unsuback);
-                            self.scheduler.untrack(id, filter);
-                            self.datalog.remove_waiters_for_id(id, filter);
-                            // a publish earlier in this batch may already have moved the parked
-                            // request to `notifications`; drop it there too, otherwise it is
-                            // tracked again after the batch and the subscription lives on
-                            self.notifications
-                                .retain(|(cid, request)| !(*cid == id && &request.filter == filter));
-                            force_ack = true;
                         }
+
+                        if let Some(broker_aliases) = connection.broker_topic_aliases.as_mut() {
+                            broker_aliases.remove_alias(filter);
+                        }
+
+                        // remove the subscription id
+                        connection.subscription_ids.remove(filter);
+
+                        reasons.push(UnsubAckReason::Success);
+                        self.scheduler.untrack(id, filter);
+                        self.datalog.remove_waiters_for_id(id, filter);
+                        // a publish earlier in this batch may already have moved the parked
+                        // request to `notifications`; drop it there too, otherwise it is
+                        // tracked again after the batch and the subscription lives on
+                        self.notifications
+                            .retain(|(cid, request)| !(*cid == id && &request.filter == filter));
                     }
+
+                    // exactly one UNSUBACK per UNSUBSCRIBE, whether or not a subscription existed
+                    // (reasons are used in MQTTv5)
+                    let unsuback = UnsubAck { pkid, reasons };
+                    let ackslog = self.ackslog.get_mut(id).unwrap();
+                    ackslog.unsuback(unsuback);
+                    force_ack = true;
                 }
                 Packet::PubAck(puback, _) => {
                     let span = tracing::info_span!("puback", pkid = puback.pkid);
